@@ -83,7 +83,10 @@ theorem table_all : table.all entryOK = true :=
 theorem table_conforms : ∀ e ∈ table, entryOK e = true :=
   fun e he => List.all_eq_true.mp table_all e he
 
-def deviating : List Entry :=
+/-- pairs with listed deviations (known findings), each with what is excepted -/
+def deviating : List (List String × Entry) :=
   []
+
+theorem deviating_conforms : ∀ d ∈ deviating, entryOKExcept d.1 d.2 = true := by decide +kernel
 
 end Generated.Conforms.ml_v5
